@@ -26,7 +26,7 @@ def plan(tier, seed):
 
 def thresholds(tier):
   t = {"programs": 220, "cycles_cosimulated": 5000, "driver_sets_analysed": 3000, "corpus_cases_cosimulated": 50,
-       "stdlib_components_cosimulated": 60, "generated_designs_cosimulated": 150, "param_designs_cosimulated": 60, "svsim_lrm_examples_ok": 24, "struct_constants_evaluated_in_text": 40, "hetero_list_designs": 16,
+       "stdlib_components_cosimulated": 60, "generated_designs_cosimulated": 150, "param_designs_cosimulated": 60, "svsim_lrm_examples_ok": 24, "struct_constants_evaluated_in_text": 40, "hetero_list_designs": 16, "localname_designs_cosimulated": 30,
        "struct_leaf_ports_mapped": 300, "array_element_ports_mapped": 300}
   if tier == "thorough":
     t.update({"programs": 2400, "generated_designs_cosimulated": 2200, "cycles_cosimulated": 50000})
@@ -169,6 +169,7 @@ def run_shard(sh):
   T.param_stream(sh, "ys", sh.params.get("params", 6), mech)
   T.ifc_stream(sh, "ys", sh.params.get("ifcs", 4), mech)
   T.hetero_stream(sh, "ys", 2, mech)
+  T.localname_stream(sh, "ys", 4 if sh.tier == "quick" else 40, mech)
   T.specgen_stream(sh, "ys", sh.params["designs"], knobs_clean, mech, "gen")
   T.specgen_stream(sh, "ys", sh.params["probes"], knobs_probe, mech, "probe-gen", count="probe_generated_designs")
   if part == 0:
